@@ -5,5 +5,8 @@ INVARIANT PairsAreCpu
 INVARIANT ForceOnlyLiftsWsym
 INVARIANT NoOpIsIdentity
 INVARIANT NeutralOptionsAreNeutral
+INVARIANT EquivalentEncodingsSameExpect
+INVARIANT BroadcastIsTrailingAligned
+INVARIANT SecondOperandOriginIsNeutral
 INVARIANT WellFormed
 CHECK_DEADLOCK FALSE
